@@ -295,6 +295,11 @@ def alphabet(u):
             if kind in ("set", "list"):
                 for op in ROPS:
                     ops.append([op, kind, c])
+    if u.typed:
+        for lab, _ in u.wrong:
+            for c in ([["w", lab]], [list(u.specs[0]), ["w", lab]]):
+                for op in ("ior", "ixor", "or", "xor"):
+                    ops.append([op, "ksu", c])
     return ops
 
 
@@ -314,8 +319,16 @@ class Raised:
         return type(self.exc).__name__
 
 
+LAST = {"operand": None}
+
+
 def mk_operand(u, pool, kind, content):
-    objs = [pool[(x[0], x[1])] for x in content]
+    objs = [(u.wrong_obj(x[1]) if x[0] == "w" else pool[(x[0], x[1])]) for x in content]
+    if kind == "ksu":
+        # an UNTYPED KeyedSet with the receiver's key function (what a typed receiver must still validate item by item)
+        from spec_classes.types import KeyedSet
+
+        return KeyedSet(objs, key=u.keyfn), objs
     if kind == "ks":
         return u.new_container(objs), objs
     if kind == "set":
@@ -365,6 +378,7 @@ def apply_impl(s, op, u, pool):
         if name == "clear":
             return s.clear(), s
         operand, _ = mk_operand(u, pool, op[1], op[2])
+        LAST["operand"] = operand
         if name in BINOPS:
             return OPFN[name](s, operand), s
         if name in ROPS:
@@ -456,6 +470,8 @@ def apply_model(m, op, u, pool):
 
     # binary / in-place / comparison operators
     kind, content = op[1], op[2]
+    if any(x[0] == "w" for x in content):
+        return SKIP, m  # wrong-typed operand members: only 'never admitted' and coherence are demanded
     objs = [pool[(x[0], x[1])] for x in content]
     if u.typed and any(not u.conforms(o) for o in objs):
         return SKIP, m  # operand / result items are not admissible for this parameterisation
@@ -554,9 +570,19 @@ def coherent(s, u, canon, is_result=False):
 
 def step(u, pool, canon, s, m, op, case, out):
     pre = observe_impl(s, u, canon, pool)
+    pre_order = [id(x) for x in s]
+    LAST["operand"] = None
     exp, m2 = apply_model(m, op, u, pool)
     got, s2 = apply_impl(s, op, u, pool)
     ok = True
+    if isinstance(got, Raised) and op[0] not in IOPS and [id(x) for x in s2] != pre_order and sorted(pre_order) == sorted(id(x) for x in s2):
+        # same items, another iteration order: a refused operation "changes nothing" - pop() would now return another item
+        out.append(violation(PROP, sig_for(u, op, "order_changed_on_raise", raised=got.family()), {"before": pre["items"]}, case))
+        ok = False
+    if op[0] in BINOPS + ROPS and not isinstance(got, Raised) and (got is s or (LAST["operand"] is not None and got is LAST["operand"])):
+        # set algebra yields a NEW set: a result that is one of the operands makes later changes to it show in the operand
+        out.append(violation(PROP, sig_for(u, op, "result_is_an_operand", which="receiver" if got is s else "operand"), {"receiver": pre["items"]}, case))
+        ok = False
     if exp is SKIP:
         # don't-care verdict; still demand coherence and, if it raised, no change
         post = observe_impl(s2, u, canon, pool)
